@@ -41,8 +41,15 @@ class SoapClientPool:
                 soap_client = self._soap_client_factory(netloc, accepted_encodings)
                 entry = _SoapClientEntry(soap_client, usr_ident)
                 self._soap_clients[netloc] = entry
-            elif usr_ident not in entry.usr_idents:
-                entry.usr_idents.append(usr_ident)
+            else:
+                if usr_ident not in entry.usr_idents:
+                    entry.usr_idents.append(usr_ident)
+                if getattr(entry.soap_client, '_has_connection_error', False):
+                    # The connection of this client broke and it does not connect again by itself. All users of this
+                    # network location share it: without a new client no request would ever be made again for any of
+                    # them, also not for users that were added after the error.
+                    self._logger.info('replace soap client for netloc {} after a connection error', netloc)  # noqa: PLE1205
+                    entry.soap_client = self._soap_client_factory(netloc, accepted_encodings)
             return entry.soap_client
 
     def forget_usr(self, netloc: str, usr_ident: Any) -> None:
